@@ -123,3 +123,134 @@ def units(tier, seed):  # noqa: F811
         assumptions=["no BOM", "chardet is right when it is shown the non-ASCII bytes"],
         outside=["BOM handling, utf-16/32", "undecodable bytes (design finding F9: read with backslashreplace, written back as escape text)"],
         witnesses_required=["ascii", "detected"], sharded=False, timeout_s=120)]
+
+
+# ---------------------------------------------------------------- whole fix run on real files: bytes outside the edit survive
+CHARS = {"ascii": "x", "e-acute": "é", "euro": "€", "y-diaeresis": "ÿ", "cjk": "中"}
+FILE_ENCODINGS = ["utf-8", "utf-8-sig", "latin-1", "utf-16"]
+CONF_ENCODINGS = ["utf-8", "utf-8-sig", "latin-1", "utf-16"]
+WHERE = ["comment", "string"]
+EOL = ["\n", "\r\n"]
+KNOWN = {}
+
+
+def _roundtrip_case(ch_name, file_enc, conf_enc, where, eol):
+    ch = CHARS[ch_name]
+    body = (f"-- note {ch}{eol}SELECT a  FROM t{eol}" if where == "comment" else f"SELECT '{ch}' AS s,  a FROM t{eol}")
+    fixed_body = body.replace("a  FROM", "a FROM").replace(",  a", ", a")
+    try:
+        data = body.encode(file_enc)
+    except UnicodeEncodeError:
+        return None
+    return body, fixed_body, data
+
+
+def _decodable(data, enc):
+    """Decodable the way the linter reads files (a text stream in that encoding, strict)."""
+    import io
+    try:
+        io.TextIOWrapper(io.BytesIO(data), encoding=enc).read()
+        return True
+    except UnicodeError:
+        return False
+
+
+def run_roundtrip(ch_name, file_enc, conf_enc, where, eol):
+    """Returns (problem or None, undecodable?) for one real `fix` run that applies the LT01 fix."""
+    import os
+    import tempfile
+    from sqlfluff.core import FluffConfig, Linter
+    case = _roundtrip_case(ch_name, file_enc, conf_enc, where, eol)
+    if case is None:
+        return None, False, False
+    body, fixed_body, data = case
+    undecodable = not _decodable(data, conf_enc)
+    d = tempfile.mkdtemp(prefix="c11_")
+    p = os.path.join(d, "f.sql")
+    open(p, "wb").write(data)
+    lin = Linter(config=FluffConfig(overrides={"dialect": "ansi", "rules": "LT01", "encoding": conf_enc}))
+    res = lin.lint_paths((p,), fix=True, apply_fixes=True)
+    out = open(p, "rb").read()
+    import shutil
+    shutil.rmtree(d, ignore_errors=True)
+    changed = out != data
+
+    def norm(b):
+        # "after line endings are normalised to LF": compare modulo CR in whatever code unit width
+        if conf_enc == "utf-16" or file_enc == "utf-16":
+            try:
+                return b.decode("utf-16").replace("\r\n", "\n").encode("utf-16")
+            except UnicodeDecodeError:
+                return b
+        return b.replace(b"\r\n", b"\n")
+    if undecodable:
+        # the property: every byte outside the edit is written back unchanged. Locate the edit on the byte level:
+        # the only allowed difference is ONE space byte removed.
+        a, b = norm(data), norm(out)
+        ok = any(a[:i] + a[i + 1:] == b for i in range(len(a)) if a[i:i + 1] == b" ") or a == b
+        return (None if ok else f"bytes {data!r} read as {conf_enc}: written back as {out!r}"), True, changed
+    import io
+    text = io.TextIOWrapper(io.BytesIO(data), encoding=conf_enc, newline="").read()
+    exp = norm(text.replace("a  FROM", "a FROM").replace(",  a", ", a").encode(conf_enc))
+    got = norm(out)
+    if got != exp and out != data:   # an unapplied fix (file left exactly as it was) is within the property
+        return f"file bytes {data!r} (encoding = {conf_enc}): fixed file is {out!r}, expected {exp!r}", False, changed
+    return None, False, changed
+
+
+def make_roundtrip():
+    def factory(excluded=frozenset()):
+        def harness(c):
+            from symlite.core import Abort
+            from symlite.values import choose
+            ch = choose(c, "character", list(CHARS))
+            fe = choose(c, "file_written_in", FILE_ENCODINGS)
+            ce = choose(c, "configured_encoding", CONF_ENCODINGS)
+            wh = choose(c, "where", WHERE)
+            eol = choose(c, "line_ending", EOL)
+            case = _roundtrip_case(ch, fe, ce, wh, eol)
+            if case is None:
+                raise Abort()
+            if not _decodable(case[2], ce) and "F9" in excluded:
+                raise Abort()   # known finding F9: undecodable bytes come back as escape text
+            problem, undec, changed = run_roundtrip(ch, fe, ce, wh, eol)   # REAL lint_paths(fix=True, apply_fixes=True)
+            if changed:
+                c.witness("file_rewritten")
+            if ch != "ascii" and not undec:
+                c.witness("non_ascii_decodable")
+            if fe == "utf-8-sig" and ce == "utf-8-sig":
+                c.witness("bom")
+            return problem is None
+        return harness
+    return factory
+
+
+def replay_roundtrip(cex):
+    ch = list(CHARS)[int(cex.get("character", 0))]
+    fe, ce = FILE_ENCODINGS[int(cex.get("file_written_in", 0))], CONF_ENCODINGS[int(cex.get("configured_encoding", 0))]
+    wh, eol = WHERE[int(cex.get("where", 0))], EOL[int(cex.get("line_ending", 0))]
+    if _roundtrip_case(ch, fe, ce, wh, eol) is None:
+        return None
+    return run_roundtrip(ch, fe, ce, wh, eol)[0]
+
+
+def known_f9(entry):
+    r = entry["replay"]
+    return run_roundtrip(r["character"], r["file_written_in"], r["configured_encoding"], r["where"], "\n")[0]
+
+
+KNOWN["F9"] = known_f9
+_units_with_encoding = units
+
+
+def units(tier, seed):  # noqa: F811
+    from lib.runner import Unit
+    return _units_with_encoding(tier, seed) + [Unit(
+        name="c11.fix_roundtrip_bytes", functions=["sqlfluff.core.linter.linter.Linter.load_raw_file_and_config / lint_paths(fix, apply_fixes)",
+                                                  "LintedFile.fix_string / persist_tree / _safe_create_replace_file"],
+        bounds={"character": list(CHARS), "file written in": FILE_ENCODINGS, "configured encoding": CONF_ENCODINGS,
+                "where": WHERE, "line ending": ["LF", "CRLF"], "fix": "one LT01 space removed elsewhere in the file"},
+        make=make_roundtrip(), replay=replay_roundtrip,
+        stubs=["none: a real file per explored path; compared on the byte level modulo CRLF->LF"],
+        outside=["autodetect (see c11.encoding_detection)", "other encodings"],
+        witnesses_required=["file_rewritten", "non_ascii_decodable", "bom"], sharded=True, timeout_s=900)]
